@@ -574,3 +574,112 @@ Proof.
     change (TV.Model.GridTracks.fr_valid C03_ex_fr0_track TV.Num.QNum.PInf TV.Num.QNum.PInf) with false. exact IH.
 Qed.
 Print Assumptions C03_fr_loop_infinite_space_refuted.
+
+(* ------------------------------------------------------------------------------------------------------------------
+   Wave 9n: the WHOLE of step 11.5 does not depend on the fuel of the inner `distribute_loop`s.  Wave 9d was per call ("the slice is in
+   `dist_ok` at the call" a premise); here the premise is discharged at every call made during the step: the class `tk_ok`
+   (Model/FuelStepDefs.v: base size finite, growth limit finite or +inf, incurred increase finite >= 0, planned increases finite, the
+   values inside the track sizing functions finite, flex factors >= 0) is an INVARIANT of every phase (to_base / to_limit of every
+   step, both flushes, fix_growth_limits, the span-1 fast path) and implies `dist_ok` for every (proportion, property, limit) triple
+   general_batch passes.  Input class: tracks in `tk_ok`, inner node size absent or finite (`inner_ok`), the oracle's three contributions
+   and the margin sum of every item finite (`item_ok`); any available space (it only selects branches), any items otherwise.
+   `resolve_intrinsic_f e1 e2 e3` = resolve_intrinsic_track_sizes with e1 / e2 more rounds at the first / second distribution of
+   distribute_item_space_to_base_size_inner and e3 more at the one of distribute_item_space_to_growth_limit (the same triple at every
+   call of the run; at (0,0,0) it IS the model: C03_intrinsic_step_fuelled_copy).  XQ (exact arithmetic) only. *)
+From TV Require Model.FuelStepDefs Proofs.FuelStepProofs.
+
+Theorem C03_intrinsic_step_fuel_independent :
+  forall (contrib : TV.Model.GridIntrinsic.item TV.Num.QNum.XQ -> TV.Model.GridIntrinsic.ckind -> TV.Num.QNum.XQ)
+         (inner : option TV.Num.QNum.XQ) (avail : TV.Model.GridTracks.avail_space TV.Num.QNum.XQ) (e1 e2 e3 : nat),
+    TV.Model.FuelStepDefs.inner_ok inner ->
+    forall (items : list (TV.Model.GridIntrinsic.item TV.Num.QNum.XQ)) (tracks : list (TV.Model.GridTracks.track TV.Num.QNum.XQ)),
+      Forall (TV.Model.FuelStepDefs.item_ok contrib) items -> Forall TV.Model.FuelStepDefs.tk_ok tracks ->
+      TV.Model.FuelStepDefs.resolve_intrinsic_f contrib inner avail e1 e2 e3 items tracks
+      = TV.Model.GridIntrinsic.resolve_intrinsic_track_sizes contrib inner avail items tracks.
+Proof. exact TV.Proofs.FuelStepProofs.resolve_intrinsic_fuel_independent. Qed.
+
+(* the fuel-parametrised copy of the step at no additional fuel is the model's function (by computation, any `Num`) *)
+Theorem C03_intrinsic_step_fuelled_copy :
+  forall (T : Type) (H : TV.Num.Num.Num T) contrib inner avail (items : list (TV.Model.GridIntrinsic.item T)) tracks,
+    TV.Model.FuelStepDefs.resolve_intrinsic_f contrib inner avail 0 0 0 items tracks
+    = TV.Model.GridIntrinsic.resolve_intrinsic_track_sizes contrib inner avail items tracks.
+Proof. intros. reflexivity. Qed.
+
+(* the invariant, per batch: a batch that is not the span-1 fast path (flexible: is_flex = true, 4 phases; or not: 6 phases) is the same
+   function with any additional fuel and keeps the class; the span-1 fast path keeps the class; hence every batch and the batch loop.
+   (Per phase: step_minimums_ok .. step_max_content_maximums_ok, flush_planned_base_ok, flush_planned_limit_ok, fix_growth_limits_ok in
+   Proofs/FuelStepProofs.v.) *)
+Theorem C03_intrinsic_general_batch_invariant :
+  forall (contrib : TV.Model.GridIntrinsic.item TV.Num.QNum.XQ -> TV.Model.GridIntrinsic.ckind -> TV.Num.QNum.XQ)
+         (inner : option TV.Num.QNum.XQ) (avail : TV.Model.GridTracks.avail_space TV.Num.QNum.XQ) (e1 e2 e3 : nat),
+    TV.Model.FuelStepDefs.inner_ok inner ->
+    forall (is_flex uff : bool) (batch : list (TV.Model.GridIntrinsic.item TV.Num.QNum.XQ)) (tracks : list (TV.Model.GridTracks.track TV.Num.QNum.XQ)),
+      Forall (TV.Model.FuelStepDefs.item_ok contrib) batch -> Forall TV.Model.FuelStepDefs.tk_ok tracks ->
+      TV.Model.FuelStepDefs.general_batch_f contrib inner avail e1 e2 e3 is_flex uff batch tracks
+      = TV.Model.GridIntrinsic.general_batch contrib inner avail is_flex uff batch tracks /\
+      Forall TV.Model.FuelStepDefs.tk_ok (TV.Model.GridIntrinsic.general_batch contrib inner avail is_flex uff batch tracks).
+Proof. exact TV.Proofs.FuelStepProofs.general_batch_ok. Qed.
+
+Theorem C03_intrinsic_batch_loop_invariant :
+  forall (contrib : TV.Model.GridIntrinsic.item TV.Num.QNum.XQ -> TV.Model.GridIntrinsic.ckind -> TV.Num.QNum.XQ)
+         (inner : option TV.Num.QNum.XQ) (avail : TV.Model.GridTracks.avail_space TV.Num.QNum.XQ) (e1 e2 e3 : nat),
+    TV.Model.FuelStepDefs.inner_ok inner ->
+    forall (fuel : nat) (ffs : TV.Num.QNum.XQ) (off : nat) (items : list (TV.Model.GridIntrinsic.item TV.Num.QNum.XQ))
+           (tracks : list (TV.Model.GridTracks.track TV.Num.QNum.XQ)),
+      Forall (TV.Model.FuelStepDefs.item_ok contrib) items -> Forall TV.Model.FuelStepDefs.tk_ok tracks ->
+      TV.Model.FuelStepDefs.batch_loop_f contrib inner avail e1 e2 e3 fuel ffs off items tracks
+      = TV.Model.GridIntrinsic.batch_loop contrib inner avail fuel ffs off items tracks /\
+      Forall TV.Model.FuelStepDefs.tk_ok (TV.Model.GridIntrinsic.batch_loop contrib inner avail fuel ffs off items tracks).
+Proof. exact TV.Proofs.FuelStepProofs.batch_loop_ok. Qed.
+
+(* the class implies the per-call class of wave 9d at both kinds of call site *)
+Theorem C03_intrinsic_tk_ok_gives_dist_ok :
+  forall (inner : option TV.Num.QNum.XQ) (tracks : list (TV.Model.GridTracks.track TV.Num.QNum.XQ)),
+    TV.Model.FuelStepDefs.inner_ok inner -> Forall TV.Model.FuelStepDefs.tk_ok tracks ->
+    (forall is_flex uff lim, (forall t, TV.Model.FuelStepDefs.tk_ok t -> TV.Model.FuelStepDefs.fin_or_pinf (lim t)) ->
+       Forall (TV.Model.FuelDistDefs.dist_ok (TV.Model.FuelDistDefs.base_size_proportion is_flex uff) TV.Model.GridTracks.base_size lim) tracks) /\
+    Forall (TV.Model.FuelDistDefs.dist_ok (fun _ => TV.Num.Num.one) TV.Model.GridIntrinsic.limit_or_base (TV.Model.GridTracks.fit_content_limit inner)) tracks.
+Proof.
+  intros inner tracks Hin Hts. split.
+  - intros is_flex uff lim Hl. apply TV.Proofs.FuelStepProofs.tk_dist_base; assumption.
+  - apply TV.Proofs.FuelStepProofs.tk_dist_limit; assumption.
+Qed.
+
+Print Assumptions C03_intrinsic_step_fuel_independent.
+Print Assumptions C03_intrinsic_step_fuelled_copy.
+Print Assumptions C03_intrinsic_general_batch_invariant.
+Print Assumptions C03_intrinsic_batch_loop_invariant.
+Print Assumptions C03_intrinsic_tk_ok_gives_dist_ok.
+
+(* non-vacuity: 3 tracks (auto / minmax(auto, fit-content(30)) / minmax(min-content, max-content)) between 4 gutter entries, a leaf of
+   size 20 in the first track and a leaf of size 100 spanning all three, max-content constraint: the span-1 fast path gives 20 to the
+   first track, then the spanning batch distributes the missing 80 over the other two.  The inputs are in the classes, and the step with
+   5 / 7 / 3 more rounds of fuel computes the same track sizes. *)
+Definition C03_ex_step_tracks : list (TV.Model.GridTracks.track TV.Num.QNum.XQ) :=
+  let f := TV.Num.QNum.Fin in
+  let g := TV.Model.GridTracks.new_track TV.Model.GridTracks.KGutter (TV.Model.GridTracks.SLength (f 0%Q)) (TV.Model.GridTracks.SLength (f 0%Q)) in
+  TV.Model.GridTracks.initialize_track_sizes None
+    [ g; TV.Model.GridTracks.new_track TV.Model.GridTracks.KTrack TV.Model.GridTracks.SAuto TV.Model.GridTracks.SAuto;
+      g; TV.Model.GridTracks.new_track TV.Model.GridTracks.KTrack TV.Model.GridTracks.SAuto (TV.Model.GridTracks.SFitPx (f 30%Q));
+      g; TV.Model.GridTracks.new_track TV.Model.GridTracks.KTrack TV.Model.GridTracks.SMinContent TV.Model.GridTracks.SMaxContent; g ].
+Definition C03_ex_step_items : list (TV.Model.GridIntrinsic.item TV.Num.QNum.XQ) :=
+  [ TV.Model.GridIntrinsic.mk_axis_item 1 0 0 3 false (TV.Num.QNum.Fin 0%Q) C03_ex_step_tracks;
+    TV.Model.GridIntrinsic.mk_axis_item 0 0 0 1 false (TV.Num.QNum.Fin 0%Q) C03_ex_step_tracks ].
+Definition C03_ex_step_contrib := TV.Model.GridIntrinsic.leaf_contrib None C03_ex_step_tracks [TV.Num.QNum.Fin 20%Q; TV.Num.QNum.Fin 100%Q].
+Example C03_intrinsic_step_fuel_independent_example :
+  TV.Model.FuelStepDefs.inner_ok (@None TV.Num.QNum.XQ) /\
+  Forall (TV.Model.FuelStepDefs.item_ok C03_ex_step_contrib) C03_ex_step_items /\
+  Forall TV.Model.FuelStepDefs.tk_ok C03_ex_step_tracks /\
+  map TV.Model.GridIntrinsic.it_span C03_ex_step_items = [3%nat; 1%nat] /\
+  map TV.Model.GridTracks.base_size
+      (TV.Model.FuelStepDefs.resolve_intrinsic_f C03_ex_step_contrib None TV.Model.GridTracks.MaxContentA 5 7 3 C03_ex_step_items C03_ex_step_tracks)
+  = [TV.Num.QNum.Fin 0%Q; TV.Num.QNum.Fin 20%Q; TV.Num.QNum.Fin 0%Q; TV.Num.QNum.Fin (80 # 2)%Q; TV.Num.QNum.Fin 0%Q; TV.Num.QNum.Fin (80 # 2)%Q; TV.Num.QNum.Fin 0%Q] /\
+  map TV.Model.GridTracks.base_size
+      (TV.Model.GridIntrinsic.resolve_intrinsic_track_sizes C03_ex_step_contrib None TV.Model.GridTracks.MaxContentA C03_ex_step_items C03_ex_step_tracks)
+  = [TV.Num.QNum.Fin 0%Q; TV.Num.QNum.Fin 20%Q; TV.Num.QNum.Fin 0%Q; TV.Num.QNum.Fin (80 # 2)%Q; TV.Num.QNum.Fin 0%Q; TV.Num.QNum.Fin (80 # 2)%Q; TV.Num.QNum.Fin 0%Q].
+Proof.
+  split; [exact I|]. split.
+  - repeat constructor; try (vm_compute; exact I); intro k; destruct k; vm_compute; exact I.
+  - split; [apply TV.Proofs.FuelStepProofs.tk_okb_sound; vm_compute; reflexivity|].
+    split; [vm_compute; reflexivity|]. split; vm_compute; reflexivity.
+Qed.
